@@ -38,6 +38,15 @@ class Recorder(ast.NodeTransformer):
 
     def generic_visit(self, node):
         node = super().generic_visit(node)
+        for field in ("body", "orelse", "finalbody"):
+            stmts = getattr(node, field, None)
+            if isinstance(stmts, list) and stmts and all(isinstance(x, ast.stmt) for x in stmts):
+                out = []
+                for st in stmts:
+                    if getattr(st, "_nv_flagged", False):
+                        out.append(ast.copy_location(ast.Expr(ast.Call(func=ast.Name(id="__flag__", ctx=ast.Load()), args=[], keywords=[])), st))
+                    out.append(st)
+                setattr(node, field, out)
         key = getattr(node, "_nv_key", None)
         if key is not None and key in self.typed and isinstance(node, ast.expr) and isinstance(getattr(node, "ctx", ast.Load()), ast.Load):
             call = ast.Call(func=ast.Name(id="__rec__", ctx=ast.Load()), args=[ast.Constant(key), node], keywords=[])
@@ -70,6 +79,11 @@ def analyse(src):
             if n.value is not None:
                 typed[("assign", i)] = t
                 n.value._nv_assign = i
+    # statements in whose text the checker reported a type error (their own, or one of an expression inside them; a compound
+    # statement counts from its header on): once one of them has started to run, the later bindings are not covered
+    for n in ast.walk(tree):
+        if isinstance(n, ast.stmt) and not isinstance(n, (ast.FunctionDef, ast.AsyncFunctionDef, ast.ClassDef)):
+            n._nv_flagged = any(isinstance(getattr(m, "_audits", {}).get("types"), TypeError) for m in ast.walk(n))
     return tree, typed, errors, restricted, bool(skips)
 
 
@@ -88,8 +102,14 @@ def abstract_run(tree, typed):
             n.module = "nada_dsl.audit"
     ast.fix_missing_locations(t2)
     seen = {}
+    flagged = [False]
+
+    def flag():
+        flagged[0] = True
 
     def rec(key, value):
+        if flagged[0]:
+            return value      # a statement the checker reported has started to run: what is bound from here on is not covered
         # judged at the moment of evaluation (lists are mutated later by append)
         ts = []
         if key in typed:
@@ -100,7 +120,7 @@ def abstract_run(tree, typed):
         return value
 
     A.Abstract.initialize({})
-    env = {"__rec__": rec}
+    env = {"__rec__": rec, "__flag__": flag}
     err = None
     try:
         with contextlib.redirect_stdout(io.StringIO()):
@@ -138,10 +158,10 @@ def judge(src):
         signal.signal(signal.SIGALRM, old)
     v = []
     from nada_dsl.audit.report import type_to_str
-    # preservation is judged in programs without type errors: once an ill-typed statement has run
-    # (e.g. an append of the wrong element type, which the checker reports), later values are not
-    # covered by the checker's promise
-    for key, obs in (seen.items() if errors == 0 else []):
+    # preservation is judged for everything that is bound before a statement with a reported type error has started to run:
+    # once an ill-typed statement has run (e.g. an append of the wrong element type, which the checker reports), later
+    # values are not covered by the checker's promise
+    for key, obs in seen.items():
         for judged in obs:
             bad = [(t, name) for t, name, ok in judged if not ok]
             if bad:
